@@ -399,7 +399,7 @@ SOURCE_NOTES = {
     'C18': 'Tie B (scale_up.go ScaleUp): C18_source_lock_only_on_success — the cool-down lock is taken iff the cloud was asked and reported no error, with the number it reported; on an error ScaleUp returns it and takes no lock.',
     'C01': 'Tie B (regenerated from scale_down.go and taint.go on every run): gen_reaperCands_eq / gen_forceCands_eq — the loop bodies of the two reapers, as translated from the source, select exactly the model\'s candidates; C01_source_reaper: a candidate is handed on only if unprotected, its time readable, not dry, age > soft and (empty or age > hard); gen_taintTime_eq / C01_source_taint_time: a time is returned only for a parsable value within the years 1-9999.',
     'C02': 'Tie B (scale_lock.go): gen_lockLocked_eq / gen_lockUnlock_eq / gen_lockLock_eq — the three methods, as translated (unlock() spliced into locked()), are the model\'s; C02_source_lock: inside the cool-down locked() says yes and changes nothing, once it has elapsed it says no and leaves the lock released.',
-    'C03': 'Tie B (scale_down.go): gen_taintClamp_eq; C03_source_clamp — the translated head of scaleDownTaint taints min(asked, untainted - min_nodes) and refuses iff fewer than min_nodes are untainted; C06_source_taint_at_most_n — the translated loop of taintOldestN, run over any list of outcomes (induction), never taints more than it was asked.',
+    'C03': 'Tie B (scale_down.go): gen_taintClamp_eq; C03_source_clamp — the translated head of scaleDownTaint taints min(asked, untainted - min_nodes) and refuses iff fewer than min_nodes are untainted; C06_source_taint_at_most_n — the translated loop of taintOldestN, run over any list of outcomes (induction), never taints more than it was asked; C06_taintLoop_count_exact / gen_taintLoop_count_eq_dry — the model\'s loop, live and dry, counts what the translated loop counts: min(asked, candidates whose write succeeds).',
     'C04': 'Tie B (scale_up.go): gen_clampedNodesToAdd_eq; C04_source_clamp — what the translated head of scaleUpCloudProviderNodeGroup goes on to request never exceeds min(max_nodes, cloud max), lands exactly on it when clamped, and is unchanged below it.',
     'C05': 'Tie B (util.go): gen_calcPercentUsage_eq, gen_calcScaleUpDelta_vals/_sentinel — the translated arithmetic equals the model for every rounding function; C05_source_in_region: run in binary64 it gives N <= n + delta <= N + 1 in the proven region.',
     'C06': 'Tie B (controller.go, util.go, scale_down.go): gen_bandSwitch_vals/_sentinel, C06_source_bands — the translated switch decides -fast / -slow / 0 / scale-up by band; C03_source_clamp gives the taint amount min(rate, untainted - min_nodes); gen_isScaleOnStarve_eq / gen_scaleOnMaxNodeAge_eq: the two documented triggers, as translated, are the model\'s (C06_source_triggers_off: switched off, they never fire); C06_source_taint_exact — the translated taint loop taints exactly min(n, candidates) when the writes succeed, for lists of any length; C06_source_taint_exact_failures — with failing writes exactly min(n, candidates whose write succeeds).',
